@@ -109,7 +109,7 @@ class DataGen(object):
                 if x < 0.3:
                     item = ("q", r.choice(["HELLO", "A B", " X ", "", "1,2", "A:B"]))
                 elif x < 0.7:
-                    item = ("u", r.choice(["HI", "A B", "XYZ  ", "R2D2", "X-1"]))
+                    item = ("u", r.choice(["HI", "A B", "XYZ  ", "R2D2", "X-1", "Red", "light blue", "Mc"]))
                 elif x < 0.85:
                     item = ("u", "")
                 else:
